@@ -100,6 +100,11 @@ Qed.
 Lemma sites_nontrivial :
   List.length (filter (fun s => is_net_kind (s_kind s)) effect_sites) = 3 /\
   4 <= List.length (filter (fun s => is_write_kind (s_kind s)) effect_sites) /\
+  5 <= List.length (filter (fun s => skind_eqb (s_kind s) KLocal) effect_sites) /\
+  In (mksite "harper-ls/src/dictionary_io.rs" "save_dict" KLocal "tmp_name.push" """.tmp""" "" "") effect_sites /\
   List.length (filter (fun s => skind_eqb (s_kind s) KProcess) effect_sites) = 1 /\
   100 <= scanned_files.
-Proof. vm_compute. repeat split; repeat constructor. Qed.
+Proof.
+  split; [vm_compute; reflexivity |]. split; [vm_compute; repeat constructor |]. split; [vm_compute; repeat constructor |].
+  split; [apply site_mem_In; vm_compute; reflexivity |]. split; [vm_compute; reflexivity | vm_compute; repeat constructor].
+Qed.
